@@ -113,13 +113,15 @@ def design_runs(pid, tier, seed, wd):
         if how in ("all", "inv"):
             # "inv": exhaustive, VIEW without history, no behaviours printed; -coverage: which actions were taken how often
             # (vacuity guard: an action never taken means its clauses were never exercised by this configuration)
+            # (TLC's coverage bookkeeping slows these runs by a factor of 40: thorough tier only, printing configurations only)
             rc, out, st = vlib.tlc("MCOmaha", path, workers=8, name="design.%s.%s" % (pid, cfg), timeout=3000,
-                                   extra=["-coverage", "1"])
+                                   extra=["-coverage", "1"] if tier == "thorough" and how == "all" else None)
             acts = {}
             for m_ in re.finditer(r"<(\w+) line \d+, col \d+ to line \d+, col \d+ of module Omaha>: (\d+):(\d+)", out):
                 acts[m_.group(1)] = max(acts.get(m_.group(1), 0), int(m_.group(3)))
-            st["actions_taken"] = {k: v for k, v in sorted(acts.items()) if v > 0 and k not in ("Init", "Next")}
-            st["actions_never_taken"] = sorted(k for k, v in acts.items() if v == 0 and k not in ("Init", "Next"))
+            if acts:
+                st["actions_taken"] = {k: v for k, v in sorted(acts.items()) if v > 0 and k not in ("Init", "Next")}
+                st["actions_never_taken"] = sorted(k for k, v in acts.items() if v == 0 and k not in ("Init", "Next"))
         else:
             num = how * (6 if tier == "thorough" else 1)
             rc, out, st = vlib.tlc("MCOmaha", path, workers=1, name="design.%s.%s" % (pid, cfg),
